@@ -221,7 +221,7 @@ class StickyAssignmentExecutor:
             for member_metadata in self.members.values()
             for topic in member_metadata.subscription
         }
-        for topic in cluster.topics():
+        for topic in cluster.topics(exclude_internal_topics=False):
             if topic not in subscribed_topics:
                 continue
             partitions = cluster.partitions_for_topic(topic)
